@@ -863,6 +863,19 @@ func (env *Env) evalCall(x *ECall, hint types.Type) Val {
 				return Val{T: types.Typ[types.String], C: []string{vc.strFromBytes(env.st, sl.Elem(), v)}}
 			}
 			efail("string() of %v", v.T)
+		case "elemof":
+			// elemof("T", ref, i): element i of the backing array `ref` holding elements of type T (raw element-heap access)
+			ts, ok := x.Args[0].(*EStr)
+			if !ok || len(x.Args) != 3 {
+				efail("elemof(\"T\", ref, index)")
+			}
+			et := vc.prog.typeByString(ts.Val, env.pkg)
+			if et == nil {
+				efail("unknown type %s", ts.Val)
+			}
+			r := env.eval(x.Args[1], refT)
+			i := env.coerceIdx(env.eval(x.Args[2], types.Typ[types.Int]))
+			return vc.readElem(env.st, et, r.C[0], i.C[0])
 		case "arrayof":
 			v := env.eval(x.Args[0], nil)
 			switch u := v.T.Underlying().(type) {
